@@ -35,6 +35,8 @@ type ServeScenario struct {
 	// within it here); PayloadLen: inbound payloads are padded to this many bytes
 	MaxPayload int `json:"maxPayload,omitempty"`
 	PayloadLen int `json:"payloadLen,omitempty"`
+	// EmptyPayload: inbound messages carry no payload at all (tag 0 for every message of the scenario)
+	EmptyPayload bool `json:"emptyPayload,omitempty"`
 	// Faults: write faults on the client's acknowledgements (e.g. the first PUBCOMP cannot be written: cutBefore)
 	Faults []netsim.FaultRule `json:"faults,omitempty"`
 	// Batch: several scenarios in one line (amortises process/JSON overhead)
@@ -112,6 +114,9 @@ func runServe(sc *ServeScenario) *ServeResult {
 			pl := netsim.PayloadOf(i + 1)
 			if sc.PayloadLen > len(pl)+1 {
 				pl = append(append(pl, ':'), bytes.Repeat([]byte{'.'}, sc.PayloadLen-len(pl)-1)...)
+			}
+			if sc.EmptyPayload {
+				pl = nil
 			}
 			w.Send(t, netsim.Publish(topic, pl, l.Q, l.ID, l.Dup, false))
 		case "REL":
